@@ -266,4 +266,88 @@ class Challenges(Sub):
         return Result(viol, True, [], evals=2 * case["n"], nt_hashes=sorted(outs[0] | outs[1]))
 
 
-SUBCHECKS = [Auth(), Challenges()]
+class Concurrent(Sub):
+    """AUTH attempts of several connections overlapping in time (the role lookup awaits the database)"""
+
+    name = "concurrent"
+    examples = {"quick": 500, "thorough": 4000}
+    shards = {"quick": 6, "thorough": 16}
+    rule = ("2-3 connections send AUTH frames (valid for their own challenge, or claiming another identity with a bad "
+            "signature / foreign challenge) back-to-back without settling; Authenticator.authenticate is observed through a "
+            "wrapper: every token returned must carry the pubkey of the very event that was presented with that call, "
+            "that event must satisfy the MUST conditions for that call's challenge, and the roles must be those stored "
+            "for that pubkey; non-trivial = a valid and an invalid attempt overlap")
+
+    def strategy(self, tier):
+        att = st.tuples(st.integers(0, 2), st.integers(0, 2), st.sampled_from(["valid", "valid", "sig", "chal-other", "claim-other"]),
+                        st.sampled_from([0, 0, 1, 3])).map(list)
+        return st.tuples(st.sampled_from(["sql", "sql", "kv"]), st.lists(att, min_size=2, max_size=6)).map(list)
+
+    def run_case(self, case):
+        return H.run(self._run, case)
+
+    async def _run(self, case):
+        backend, attempts = case
+        viol = []
+        roles = {E.PKS[0]: "w", E.PKS[1]: "r", E.PKS[2]: "rw"}
+        cfg = {"authentication": {"enabled": True, "relay_urls": [URLS[0]], "actions": {"save": "w", "query": "r"}},
+               "service_privatekey": bootstrap.SERVICE_SK}
+        async with H.Rig(backend, config=cfg, file_db=True if backend == "sql" else None) as rig:
+            for pk, r in roles.items():
+                await rig.storage.set_auth_roles(pk, r)
+            rig.pump()
+            await rig.settle()
+            conns = [rig.conn("10.0.0.%d" % (i + 1)) for i in range(3)]
+            await rig.settle()
+            chals = [c.frames()[0][1] for c in conns]
+            log = []
+            auth = rig.storage.authenticator
+            real = auth.authenticate
+
+            async def spy(payload, challenge=""):
+                try:
+                    token = await real(payload, challenge=challenge)
+                except BaseException as e:
+                    log.append((payload, challenge, None, type(e).__name__))
+                    raise
+                log.append((payload, challenge, dict(token), None))
+                return token
+
+            auth.authenticate = spy
+            kinds = set()
+            for ci, k, how, turns in attempts:
+                tags = [["relay", URLS[0]], ["challenge", chals[ci]]]
+                if how == "chal-other":
+                    tags[1][1] = chals[(ci + 1) % 3]
+                ev = E.make(k, 22242, int(rig.clock.now), tags, "")
+                if how == "sig":
+                    ev["sig"] = E.sign_id((k + 1) % 3, ev["id"])
+                elif how == "claim-other":
+                    ev["pubkey"] = E.PKS[(k + 1) % 3]   # claims somebody else, signature does not fit
+                kinds.add("valid" if how == "valid" else "invalid")
+                conns[ci].feed(["AUTH", ev], turns)
+            await rig.settle()
+            auth.authenticate = real
+            for payload, challenge, token, exc in log:
+                if token is None:
+                    continue
+                ok, why = E.authentic(payload) if isinstance(payload, dict) else (False, "not an object")
+                tagv = {t[0]: t[1] for t in payload.get("tags", []) if isinstance(t, list) and len(t) > 1} if isinstance(payload, dict) else {}
+                if not ok or tagv.get("challenge") != challenge or tagv.get("relay") != URLS[0]:
+                    viol.append(V("concurrent-authenticated-without-valid-answer", "only a correctly signed answer to this connection's challenge authenticates",
+                                  why=why, challenge_ok=tagv.get("challenge") == challenge))
+                elif token.get("pubkey") != payload["pubkey"]:
+                    viol.append(V("token-identity-differs-from-presented-event", "the identity obtained is the one that signed the presented answer",
+                                  token_pubkey=str(token.get("pubkey"))[:8], event_pubkey=payload["pubkey"][:8]))
+                elif set(token.get("roles", ())) != set(roles[payload["pubkey"]]):
+                    viol.append(V("token-roles-differ", "the token carries the roles stored for its pubkey",
+                                  roles=sorted(token.get("roles", ())), want=sorted(roles[payload["pubkey"]])))
+                if viol:
+                    break
+            for c in conns:
+                if not c.task.done():
+                    await c.disconnect()
+        return Result(viol, kinds == {"valid", "invalid"}, ["backend:" + backend])
+
+
+SUBCHECKS = [Auth(), Challenges(), Concurrent()]
